@@ -815,3 +815,41 @@ Proof.
   destruct (inline_step _ _ _ _ _ _ _ _ _ _ _ _ H1 H2) as [He [_ Hc]].
   split; [exact He|]. split; [reflexivity|]. exists s0, s'. split; assumption.
 Qed.
+
+(* ------------------------------------------------------------------------------------ after an unwrapping step, after a refusal *)
+
+(* whatever the callback returned — a Future / Task living on any executor included — the step's core holds the executor it
+   was attached with (Core::Impl re-entered with unwrapping != 0 goes to async_done without TransferExecutorTo) *)
+Theorem step_executor : forall pol ce s q id par a rt body oq s0 o s',
+  drun pol ce s q = Some (oq, s0) -> drun pol ce s (PThen q id par a rt body) = Some (o, s') ->
+  o_exec o = exec_of a oq.
+Proof. intros. destruct (dthen_shape _ _ _ _ _ _ _ _ _ _ _ _ _ H H0) as [He _]. exact He. Qed.
+
+Lemma d_cnt_app : forall s js e, d_cnt (s ++ js) e = d_cnt s e + d_cnt js e.
+Proof. intros. unfold d_cnt, jobs_of. rewrite filter_app, app_length. reflexivity. Qed.
+
+(* a refused step leaves the refusing executor in its core: with an executor that keeps refusing once it has started to
+   (Stop is final), the next Then(f) inherits it and is refused as well, and so on down the chain *)
+Theorem inherit_after_refusal : forall pol ce s q id par a rt body oq s0 o1 s1,
+  drun pol ce s q = Some (oq, s0) -> drun pol ce s (PThen q id par a rt body) = Some (o1, s1) ->
+  (forall m, d_cnt s0 (exec_of a oq) <= m -> pol (exec_of a oq) m = false) ->
+  o_exec o1 = exec_of a oq /\ accepts pol s1 (exec_of AInherit o1) = false /\
+  (forall m, d_cnt s1 (exec_of AInherit o1) <= m -> pol (exec_of AInherit o1) m = false).
+Proof.
+  intros pol ce s q id par a rt body oq s0 o1 s1 Hq H Hm.
+  pose proof (step_executor _ _ _ _ _ _ _ _ _ _ _ _ _ Hq H) as He.
+  destruct (dthen_some_inv _ _ _ _ _ _ _ _ _ _ _ H) as [oq' [s0' [Hq' Hs]]].
+  rewrite Hq in Hq'. inversion Hq'. subst oq' s0'.
+  assert (Hext : exists js, s1 = s0 ++ js).
+  { apply dstep_shape in Hs. destruct Hs as [_ [_ Hs]].
+    destruct (ext_step pol s0 a id (exec_of a oq)) as [js1 Hj1].
+    destruct Hs as [[_ [_ [_ Hs]]]|[i [_ [[_ [_ [_ Hs]]]|[k [p' [oi [_ [Hr _]]]]]]]]].
+    - subst. eexists. exact Hj1.
+    - subst. eexists. exact Hj1.
+    - destruct (drun_ext _ _ _ _ _ _ Hr) as [js2 Hj2]. rewrite Hj2, Hj1, <- app_assoc. eexists. reflexivity. }
+  destruct Hext as [js Hjs]. cbn [exec_of]. rewrite He. split; [reflexivity|].
+  assert (Hle : d_cnt s0 (exec_of a oq) <= d_cnt s1 (exec_of a oq)). { rewrite Hjs, d_cnt_app. lia. }
+  split.
+  - unfold accepts. apply Hm. exact Hle.
+  - intros m Hle'. apply Hm. lia.
+Qed.
